@@ -614,7 +614,11 @@ impl Stdfs {
 
         // Iterate over source taking into account link following
         let src_root = StdfsEntry::from(&src_root)?.follow(cp.follow);
-        for entry in Stdfs::entries(src_root.path())?.follow(cp.follow) {
+
+        // List the source before writing anything: a destination inside the source would otherwise be
+        // picked up by the traversal which then descends into its own output until the path is too long
+        let entries: Vec<RvResult<VfsEntry>> = Stdfs::entries(src_root.path())?.follow(cp.follow).into_iter().collect();
+        for entry in entries {
             let src = entry?;
 
             // Set destination path based on source path
